@@ -17,6 +17,54 @@ ASSUMPTIONS = ["query points and vertices inside the index extent", "the straddl
 TECHNIQUE = "abstract interpretation of the SpatialIndex / Network method bodies by the checker's AST interpreter on finite case domains (grid shapes x integrality classes of the vertices x window radii; networks with curved and late edges) (bounded), symbolic rounding/polarity decomposition of the distance-to-units conversion (F2, all inputs)"
 
 
+
+def _make_index(ctx, fn, CS, LS, grid):
+    """a CS x LS index of unit cells over [0, CS] x [0, LS]: built by the repository's own constructor (over an empty collection of that
+    extent, so that whatever fields the constructor creates exist), then given the cell contents of the case"""
+    from .. import absint, orders
+
+    class _Box(orders.PyStub):
+        isa = ('Bbox',)
+
+        def __init__(self, v):
+            self.v = tuple(float(x) for x in v)
+
+        def copy(self):
+            return _Box(self.v)
+
+        def addMargin(self, m):
+            dx, dy = (self.v[1] - self.v[0]) * m, (self.v[3] - self.v[2]) * m
+            self.v = (self.v[0] - dx, self.v[1] + dx, self.v[2] - dy, self.v[3] + dy)
+
+        def asTuple(self):
+            return self.v
+
+        def getDimensions(self):
+            return (self.v[1] - self.v[0], self.v[3] - self.v[2])
+
+    class _Empty(orders.PyStub):
+        isa = ('TrackCollection',)
+
+        def bbox(self):
+            return _Box((0.0, CS, 0.0, LS))
+
+        def size(self):
+            return 0
+
+        def __len__(self):
+            return 0
+    explicit = {'grid': grid, 'csize': CS, 'lsize': LS, 'xmin': 0.0, 'ymin': 0.0, 'xmax': float(CS), 'ymax': float(LS),
+                'dX': 1.0, 'dY': 1.0, 'inventaire': set(), 'collection': None, 'verbose': False}
+    try:
+        ix = absint.classref(ctx, SI, fn)(_Empty(), (1.0, 1.0), 0.0, False)
+        ok = isinstance(ix, orders.Obj) and ix.fields.get('csize') == CS and ix.fields.get('lsize') == LS
+    except Exception:
+        ok = False
+    if not ok:
+        return absint.instance(ctx, SI, explicit, fn)
+    ix.fields.update({'grid': grid, 'collection': None})
+    return ix
+
 def vr(v):
     if isinstance(v, Rat):
         a = v.single_atom()
@@ -393,8 +441,7 @@ def rule_Q(ctx):
 
     def index(fill=True):
         grid = [[([('cell', i, j)] if fill else []) for j in range(LS)] for i in range(CS)]
-        return absint.instance(ctx, SI, {'grid': grid, 'csize': CS, 'lsize': LS, 'xmin': 0.0, 'ymin': 0.0, 'xmax': float(CS), 'ymax': float(LS),
-                                         'dX': 1.0, 'dY': 1.0, 'inventaire': set(), 'collection': None, 'verbose': False}, fn)
+        return _make_index(ctx, fn, CS, LS, grid)
 
     def cell_of(c):
         return (min(math.floor(c.x), CS - 1), min(math.floor(c.y), LS - 1))
@@ -650,8 +697,7 @@ def rule_S(ctx):
     for CS, LS in ((2, 5), (1, 4), (4, 1), (3, 3)):
         def index(fill):
             grid = [[([('cell', i, j)] if fill else []) for j in range(LS)] for i in range(CS)]
-            return absint.instance(ctx, SI, {'grid': grid, 'csize': CS, 'lsize': LS, 'xmin': 0.0, 'ymin': 0.0, 'xmax': float(CS), 'ymax': float(LS),
-                                             'dX': 1.0, 'dY': 1.0, 'inventaire': set(), 'collection': None, 'verbose': False}, fn)
+            return _make_index(ctx, fn, CS, LS, grid)
         shape = {'grid (columns, rows)': [CS, LS]}
 
         def call(ix, method, *a, **kw):
@@ -675,6 +721,24 @@ def rule_S(ctx):
                 if not isinstance(data, (list, set, tuple)) or not wd <= set(data):
                     found.setdefault('nb-pt', ('neighborhood', 'neighborhood(point, unit=u) returns the data of every cell within u cells of the one containing the point',
                                                dict(shape, point=[i + 0.5, j + 0.5], u=u, missing=sorted(map(repr, wd - set(data if isinstance(data, (list, set, tuple)) else []))))))
+            # a history of queries on ONE index object: a nearest search (unit = -1) from a cell, then the windows of every radius from
+            # the same cell (and the other way round) - every answer is that of a fresh index
+            for i, j in itertools.product(range(CS), range(LS)):
+                for fill_label, grid_of in (('every cell holds data', lambda: [[[('cell', a, b)] for b in range(LS)] for a in range(CS)]),
+                                            ('only the last cell holds data', lambda: [[([('cell', a, b)] if (a, b) == (CS - 1, LS - 1) else []) for b in range(LS)] for a in range(CS)])):
+                    for first_nearest in (True, False):
+                        ix = _make_index(ctx, fn, CS, LS, grid_of())
+                        filled = {(a, b) for a in range(CS) for b in range(LS) if ix.fields['grid'][a][b]}
+                        steps = ([-1] if first_nearest else []) + list(range(0, max(CS, LS) + 1)) + ([] if first_nearest else [-1, 1, 0])
+                        for u in steps:
+                            data = call(ix, 'neighborhood', Coord(i + 0.5, j + 0.5), None, u)
+                            if u < 0:
+                                continue
+                            want = {(a, b) for a in range(max(i - u, 0), min(i + u + 1, CS)) for b in range(max(j - u, 0), min(j + u + 1, LS))} & filled
+                            wd = {('cell', a, b) for a, b in want}
+                            if not isinstance(data, (list, set, tuple)) or not wd <= set(data):
+                                found.setdefault('nb-history', ('neighborhood', 'on an index that has already answered other queries, neighborhood(point, unit=u) still returns the data of every cell within u cells of the one containing the point',
+                                                                dict(shape, point=[i + 0.5, j + 0.5], cells=fill_label, **{'queries so far (unit)': steps[:steps.index(u) + 1] if u in steps else steps, 'missing': sorted(map(repr, wd - set(data if isinstance(data, (list, set, tuple)) else [])))})))
             # tracks along cell centres: registration and queries
             lines = []
             for j in range(LS):
